@@ -17,8 +17,15 @@ def _f(*a, **k):
 
 
 class _K:
-    def __init__(self, v):
+    """A receiver that is also a sized container: an empty one is falsy (the reducers must select by identity,
+    never by truthiness)."""
+
+    def __init__(self, v, size=1):
         self.v = v
+        self.size = size
+
+    def __len__(self):
+        return self.size
 
     def m(self, x):
         return (self.v, x)
@@ -52,14 +59,14 @@ def check_partial_fidelity(args: Tuple[int, ...], has_a: bool, has_b: bool, va: 
             and q.keywords == dict(kw) and q(x) == p(x) and q(x, z=x) == p(x, z=x))
 
 
-def check_method_fidelity(kind: int, v: int, x: int) -> bool:
+def check_method_fidelity(kind: int, v: int, x: int, size: int = 1) -> bool:
     """
-    pre: 0 <= kind <= 3
+    pre: 0 <= kind <= 3 and 0 <= size <= 2
     post: _
     """
     kind = _conc(kind, 3)
     if kind == 0:
-        o = _K(v)
+        o = _K(v, _conc(size, 2))
         m = o.m
         g, a = red._reduce_method(m)
         r = g(*a)
@@ -83,7 +90,7 @@ def check_method_fidelity(kind: int, v: int, x: int) -> bool:
         red._dispatch_table[type(int.__add__)] is red._reduce_method_descriptor
 
 
-def check_roundtrip_backends(backend: int, kind: int) -> bool:
+def check_roundtrip_backends(backend: int, kind: int, empty: bool = False) -> bool:
     """
     pre: 0 <= backend <= 1 and 0 <= kind <= 4
     post: _
@@ -92,7 +99,7 @@ def check_roundtrip_backends(backend: int, kind: int) -> bool:
     saved = red._loky_pickler_name
     red.set_loky_pickler(["cloudpickle", "pickle"][backend])
     try:
-        o = _K(3)
+        o = _K(3, 0 if empty else 2)
         obj = [o.m, _K.c, list.append, int.__add__, fakes.PARTIAL_EXEMPLAR][kind]
         back = pickle.loads(red.dumps(obj))
     finally:
@@ -259,3 +266,41 @@ def check_partial_roundtrip_variants(backend: int, has_kw: bool, has_attr: bool,
         red.set_loky_pickler(saved)
     return (back.args == p.args and back.keywords == p.keywords and back(x) == p(x)
             and back(x, z=x) == p(x, z=x) and back.func(7, q=1) == fakes.kwfn(7, q=1))
+
+
+def check_simple_queue_put(with_reducer: bool, has_wlock: bool, send_fails: bool, v: int) -> bool:
+    """
+    post: _
+    """
+    # the result path of a worker: the real loky SimpleQueue.put pickles with that queue's reducers (and only
+    # those), sends exactly one message, under the write lock, and leaves the lock free also when sending fails
+    import loky.backend.queues as lq
+    log = Log()
+    wl = FakeLock(log, "wlock")
+    sent = []
+
+    def send_bytes(b):
+        log.add("send", wl.held)
+        if send_fails:
+            raise OSError("pipe broken")
+        sent.append(bytes(b))
+
+    q = lq.SimpleQueue.__new__(lq.SimpleQueue)
+    q._reducers = {_T1: _R[(_T1, "B")]} if with_reducer else None
+    q._wlock = wl if has_wlock else None
+    q._writer = NS(send_bytes=send_bytes)
+    before = _snapshot()
+    o = _T1(v) if with_reducer else (v, "plain")
+    try:
+        q.put(o)
+        raised = False
+    except OSError:
+        raised = True
+    if raised != bool(send_fails) or wl.held or _snapshot() != before:
+        return False
+    if log.count("send") != 1 or (has_wlock and log.count("send", True) != 1):
+        return False
+    if send_fails:
+        return sent == []
+    back = pickle.loads(sent[0])
+    return back == (("B", v) if with_reducer else (v, "plain")) and len(sent) == 1
